@@ -231,6 +231,26 @@ func (c *Ctl) release(e *parkEntry) {
 	close(e.ch)
 }
 
+// ReleasePrefix releases every goroutine parked at a key with the given
+// prefix and returns how many there were.
+func (c *Ctl) ReleasePrefix(prefix string) int {
+	c.mu.Lock()
+	var rel, keep []*parkEntry
+	for _, p := range c.parked {
+		if strings.HasPrefix(p.key, prefix) {
+			rel = append(rel, p)
+		} else {
+			keep = append(keep, p)
+		}
+	}
+	c.parked = keep
+	c.mu.Unlock()
+	for _, p := range rel {
+		close(p.ch)
+	}
+	return len(rel)
+}
+
 // ReleaseAll lets every parked goroutine go (cleanup only).
 func (c *Ctl) ReleaseAll() {
 	c.mu.Lock()
